@@ -144,3 +144,36 @@ package server
 //@   requires config != nil
 //@   ensures [from-file] viperIsSet(v, "telemetry.enabled") ==> config.Telemetry.Enabled == viperBool(v, "telemetry.enabled")
 //@   ensures [default-kept] !viperIsSet(v, "telemetry.enabled") ==> config.Telemetry.Enabled == old(config.Telemetry.Enabled)
+
+// ---------------------------------------------------------------------------------------------
+// The leader's receive loop (properties C04, C17, C16): what reaches the log and what is acknowledged.
+//
+// ghost.sealed: byte slices returned by a successful Seal of the partition's encryption handler.
+//@ ghost var sealed set[[]byte]
+
+//@ func natsToProtoMessage serves C04, C17, C14
+//@   ensures result != nil && fresh(result)
+//@   ensures [others-untouched] forall x *commitlog.Message :: x != result ==> x.Value == old(x.Value)
+
+// storable(m): m passed the gates in front of the log: with an encryption handler its value is a Seal output
+//@ func (*partition).messageProcessingLoop serves C04, C17, C16
+//@   requires p != nil && p.srv != nil && p.srv.config != nil
+//@   ghost after call Seal: ghost.sealed[ret0] := ghost.sealed[ret0] || ret1 == nil
+//@   call builtin.append requires [sealed-before-batched] p.encryptionHandler == nil || ghost.sealed[arg1[0].Value]
+//@   call builtin.append requires [size-checked] int64(len(msg.Data)) <= p.srv.config.Clustering.ReplicationMaxBytes
+//@   call Append requires [only-gated] forall j int :: 0 <= j && j < len(arg1) ==> arg1[j] != nil && (p.encryptionHandler == nil || ghost.sealed[arg1[j].Value])
+//@   call Append requires [cc-single] len(arg1) >= 1 && (ghost.cc ==> len(arg1) == 1)
+//@   call sendAck requires [negative] arg1.AckError != 0
+//@   call processPendingMessage requires [stored-pairing] err == nil && 0 <= i && i < len(offsets) && arg1 == offsets[i] && arg2 == msgBatch[i]
+//@   call SetHighWatermark requires [stored-offset] err == nil && arg1 == offsets[len(offsets)-1]
+//@   call updateISRLatestOffset requires [stored-offset] err == nil && arg2 == offsets[len(offsets)-1]
+//@   ghost after call IsConcurrencyControlEnabled: ghost.cc := ret0
+//@   loop 1 invariant ghost.cc ==> batchSize == 1
+//@   loop 2 invariant ghost.cc ==> batchSize == 1
+//@   loop 2 invariant len(msgBatch) >= 1
+//@   loop 2 invariant ghost.cc ==> len(msgBatch) == 1 && remaining == 0
+//@   loop 2 invariant forall j int :: 0 <= j && j < len(msgBatch) ==> msgBatch[j] != nil
+//@   loop 2 invariant forall j int :: 0 <= j && j < len(msgBatch) ==> allocated(msgBatch[j])
+//@   loop 2 invariant forall j int :: 0 <= j && j < len(msgBatch) ==> (p.encryptionHandler == nil || ghost.sealed[msgBatch[j].Value])
+//@   loop 3 invariant err == nil && -1 <= rangeindex
+//@ ghost var cc bool
